@@ -44,19 +44,76 @@ theorem Ctl.winner_of {s : State} (h : Ctl s) (t : Nat) (hp : 1 ≤ ph (s.closer
 theorem wpc_of_winner {s : State} {t : Nat} (h : s.winner = some t) : wpc s = s.closers t := by
   simp [wpc, h]
 
-/-- a pass step touches only the cells and the log -/
-theorem passStep_frame (s : State) (p : PassPc) :
-    ∃ c l, (passStep s p).1 = { s with cells := c, log := l } := by
+/-- what one pass step can be (the graph of `passStep`, one constructor per kind of action) -/
+inductive PassRel (s : State) (c : Nat) : PassPc → State → Option PassPc → Prop
+  | begin : PassRel s c .begin { s with log := .internal :: s.log } (some (.pick []))
+  | take (vis : List Nat) (x : Token) (r : List Token) (hc : c < s.cells.length) (hv : c ∉ vis)
+      (hx : s.cells[c]? = some (x :: r)) :
+      PassRel s c (.pick vis) { s with cells := s.cells.set c [] } (some (.deliver c (x :: r) (c :: vis)))
+  | skip (vis : List Nat) (hc : c < s.cells.length) (hv : c ∉ vis) (hx : s.cells[c]? = some []) :
+      PassRel s c (.pick vis) s (some (.pick (c :: vis)))
+  | over (vis : List Nat) (hc : s.cells.length ≤ c) (hall : ∀ j, j < s.cells.length → j ∈ vis) :
+      PassRel s c (.pick vis) s (some .flush)
+  | deliver (i : Nat) (pend : List Token) (vis : List Nat) :
+      PassRel s c (.deliver i pend vis) { s with log := .deliver pend :: s.log } (some (.pick vis))
+  | flush : PassRel s c .flush { s with log := .flush :: s.log } none
+
+theorem all_visited_iff (K : Nat) (vis : List Nat) :
+    (List.range K).all (fun i => vis.contains i) = true ↔ ∀ j, j < K → j ∈ vis := by
+  simp [List.all_eq_true]
+
+theorem passStep_rel {s : State} {c : Nat} {p : PassPc} {s1 : State} {oq : Option PassPc}
+    (h : passStep s c p = some (s1, oq)) : PassRel s c p s1 oq := by
   cases p with
-  | begin => exact ⟨_, _, rfl⟩
-  | swap i =>
-    simp only [passStep]
-    split
-    · exact ⟨_, _, rfl⟩
-    · exact ⟨_, _, rfl⟩
-    · exact ⟨_, _, rfl⟩
-  | deliver i pend => exact ⟨_, _, rfl⟩
-  | flush => exact ⟨_, _, rfl⟩
+  | begin => simp only [passStep, Option.some.injEq, Prod.mk.injEq] at h; obtain ⟨rfl, rfl⟩ := h; exact .begin
+  | pick vis =>
+    simp only [passStep] at h
+    split at h
+    · next hc =>
+      split at h
+      · cases h
+      · next hv =>
+        split at h
+        · next x r hx =>
+          simp only [Option.some.injEq, Prod.mk.injEq] at h; obtain ⟨rfl, rfl⟩ := h
+          exact .take vis x r hc hv hx
+        · next hne =>
+          simp only [Option.some.injEq, Prod.mk.injEq] at h; obtain ⟨rfl, rfl⟩ := h
+          refine .skip vis hc hv ?_
+          rw [List.getElem?_eq_getElem hc] at hne ⊢
+          cases hg : s.cells[c] with
+          | nil => rfl
+          | cons x r => exact absurd (by rw [hg]) (hne x r)
+    · next hc =>
+      split at h
+      · next hall =>
+        simp only [Option.some.injEq, Prod.mk.injEq] at h; obtain ⟨rfl, rfl⟩ := h
+        exact .over vis (by omega) ((all_visited_iff _ _).mp hall)
+      · cases h
+  | deliver i pend vis =>
+    simp only [passStep, Option.some.injEq, Prod.mk.injEq] at h; obtain ⟨rfl, rfl⟩ := h; exact .deliver i pend vis
+  | flush => simp only [passStep, Option.some.injEq, Prod.mk.injEq] at h; obtain ⟨rfl, rfl⟩ := h; exact .flush
+
+theorem passStep_of_rel {s : State} {c : Nat} {p : PassPc} {s1 : State} {oq : Option PassPc}
+    (h : PassRel s c p s1 oq) : passStep s c p = some (s1, oq) := by
+  cases h with
+  | begin => rfl
+  | take vis x r hc hv hx => simp only [passStep, hc, hv, hx, ↓reduceIte]
+  | skip vis hc hv hx => simp only [passStep, hc, hv, hx, ↓reduceIte]
+  | over vis hc hall =>
+    have : ¬ c < s.cells.length := by omega
+    simp only [passStep, this, if_false, (all_visited_iff _ _).mpr hall, if_true]
+  | deliver i pend vis => rfl
+  | flush => rfl
+
+/-- a pass step touches only the cells and the log -/
+theorem passStep_frame {s : State} {ch : Nat} {p : PassPc} {s1 : State} {oq : Option PassPc}
+    (h : passStep s ch p = some (s1, oq)) : ∃ c l, s1 = { s with cells := c, log := l } := by
+  cases passStep_rel h <;> exact ⟨_, _, rfl⟩
+
+theorem passStep_length {s : State} {ch : Nat} {p : PassPc} {s1 : State} {oq : Option PassPc}
+    (h : passStep s ch p = some (s1, oq)) : s1.cells.length = s.cells.length := by
+  cases passStep_rel h <;> simp
 
 theorem ctl_init (k : Nat) (hl cl : Bool) (er : Option Nat) : Ctl (init k hl cl er) := by
   constructor <;> simp [init, wpc, ph]
@@ -147,7 +204,7 @@ theorem ctl_step (s s' : State) (e : Ev) (h : Ctl s) (hs : step s e = some s') :
       · simp only [Option.some.injEq] at hs; subst hs; exact h.loop_exit
       · cases hs
     · cases hs
-  | loop =>
+  | loop ch =>
     simp only [step] at hs
     split at hs
     · next hl =>
@@ -155,20 +212,18 @@ theorem ctl_step (s s' : State) (e : Ev) (h : Ctl s) (hs : step s e = some s') :
       · exact h.loop_frame (by simp [hl]) _ _ _
       · exact h.loop_frame (by simp [hl]) _ _ _
     · next p hl =>
-      obtain ⟨c, l, hf⟩ := passStep_frame s p
       split at hs
       · next s1 q hp =>
         simp only [Option.some.injEq] at hs; subst hs
-        have : s1 = (passStep s p).1 := by rw [hp]
-        rw [this, hf]
+        obtain ⟨c, l, rfl⟩ := passStep_frame hp
         exact h.loop_frame (by simp [hl]) _ _ _
       · next s1 hp =>
         simp only [Option.some.injEq] at hs; subst hs
-        have : s1 = (passStep s p).1 := by rw [hp]
-        rw [this, hf]
+        obtain ⟨c, l, rfl⟩ := passStep_frame hp
         exact h.loop_frame (by simp [hl]) _ _ _
+      · cases hs
     · cases hs
-  | closer t =>
+  | closer t ch =>
     simp only [step] at hs
     split at hs
     · next hpc =>
@@ -242,20 +297,18 @@ theorem ctl_step (s s' : State) (e : Ev) (h : Ctl s) (hs : step s e = some s') :
       have hpg := h.purged_iff; rw [wpc_of_winner hw, hpc] at hpg; simp [ph] at hpg
       have hd := h.done_iff; rw [wpc_of_winner hw, hpc] at hd; simp [ph] at hd
       have hex := h.loopEx (by rw [wpc_of_winner hw, hpc]; simp [ph])
-      obtain ⟨c, l, hf⟩ := passStep_frame s p
       split at hs
       · next s1 q hp =>
         simp only [Option.some.injEq] at hs; subst hs
-        have : s1 = (passStep s p).1 := by rw [hp]
-        rw [this, hf]
+        obtain ⟨c, l, rfl⟩ := passStep_frame hp
         exact h.wstep hw (by rw [hpc]; rfl) (.pass q) s.doneClosed s.purged c l s.dropped s.returns
           (by simp [ph]) (by simp [ph, hd]) (fun _ => hex) (by simp [ph, hpg]) (Or.inl rfl) (by intro r hr; cases hr)
       · next s1 hp =>
         simp only [Option.some.injEq] at hs; subst hs
-        have : s1 = (passStep s p).1 := by rw [hp]
-        rw [this, hf]
+        obtain ⟨c, l, rfl⟩ := passStep_frame hp
         exact h.wstep hw (by rw [hpc]; rfl) .purgePc s.doneClosed s.purged c l s.dropped s.returns
           (by simp [ph]) (by simp [ph, hd]) (fun _ => hex) (by simp [ph, hpg]) (Or.inl rfl) (by intro r hr; cases hr)
+      · cases hs
     · next hpc =>
       have hw := h.winner_of t (by rw [hpc]; simp [ph])
       simp only [Option.some.injEq] at hs; subst hs
@@ -311,18 +364,6 @@ structure SameParams (s s' : State) : Prop where
   err : s'.err = s.err
   k : s'.cells.length = s.cells.length
 
-theorem passStep_length (s : State) (p : PassPc) : (passStep s p).1.cells.length = s.cells.length := by
-  cases p with
-  | begin => rfl
-  | swap i =>
-    simp only [passStep]
-    split
-    · rfl
-    · rfl
-    · simp
-  | deliver i pend => rfl
-  | flush => rfl
-
 theorem step_params (s s' : State) (e : Ev) (hs : step s e = some s') : SameParams s s' := by
   cases e with
   | record c =>
@@ -349,26 +390,25 @@ theorem step_params (s s' : State) (e : Ev) (hs : step s e = some s') : SamePara
       · simp only [Option.some.injEq] at hs; subst hs; exact ⟨rfl, rfl, rfl, rfl⟩
       · cases hs
     · cases hs
-  | loop =>
+  | loop ch =>
     simp only [step] at hs
     split at hs
     · split at hs <;> (simp only [Option.some.injEq] at hs; subst hs) <;> exact ⟨rfl, rfl, rfl, rfl⟩
     · next p hl =>
-      obtain ⟨c, l, hf⟩ := passStep_frame s p
-      have hlen := passStep_length s p
       split at hs
       · next s1 q hp =>
         simp only [Option.some.injEq] at hs; subst hs
-        have : s1 = (passStep s p).1 := by rw [hp]
-        subst this
-        refine ⟨?_, ?_, ?_, hlen⟩ <;> (rw [hf])
+        have hlen := passStep_length hp
+        obtain ⟨c, l, rfl⟩ := passStep_frame hp
+        exact ⟨rfl, rfl, rfl, hlen⟩
       · next s1 hp =>
         simp only [Option.some.injEq] at hs; subst hs
-        have : s1 = (passStep s p).1 := by rw [hp]
-        subst this
-        refine ⟨?_, ?_, ?_, hlen⟩ <;> (rw [hf])
+        have hlen := passStep_length hp
+        obtain ⟨c, l, rfl⟩ := passStep_frame hp
+        exact ⟨rfl, rfl, rfl, hlen⟩
+      · cases hs
     · cases hs
-  | closer t =>
+  | closer t ch =>
     simp only [step] at hs
     split at hs
     · split at hs <;> (simp only [Option.some.injEq] at hs; subst hs) <;> exact ⟨rfl, rfl, rfl, rfl⟩
@@ -377,19 +417,18 @@ theorem step_params (s s' : State) (e : Ev) (hs : step s e = some s') : SamePara
       · simp only [Option.some.injEq] at hs; subst hs; exact ⟨rfl, rfl, rfl, rfl⟩
       · cases hs
     · next p hpc =>
-      obtain ⟨c, l, hf⟩ := passStep_frame s p
-      have hlen := passStep_length s p
       split at hs
       · next s1 q hp =>
         simp only [Option.some.injEq] at hs; subst hs
-        have : s1 = (passStep s p).1 := by rw [hp]
-        subst this
-        refine ⟨?_, ?_, ?_, hlen⟩ <;> (simp only [setC]; rw [hf])
+        have hlen := passStep_length hp
+        obtain ⟨c, l, rfl⟩ := passStep_frame hp
+        exact ⟨rfl, rfl, rfl, hlen⟩
       · next s1 hp =>
         simp only [Option.some.injEq] at hs; subst hs
-        have : s1 = (passStep s p).1 := by rw [hp]
-        subst this
-        refine ⟨?_, ?_, ?_, hlen⟩ <;> (simp only [setC]; rw [hf])
+        have hlen := passStep_length hp
+        obtain ⟨c, l, rfl⟩ := passStep_frame hp
+        exact ⟨rfl, rfl, rfl, hlen⟩
+      · cases hs
     · simp only [Option.some.injEq] at hs; subst hs
       exact ⟨rfl, rfl, rfl, by simp [setC, purgeAll]⟩
     · split at hs <;> (simp only [Option.some.injEq] at hs; subst hs) <;> exact ⟨rfl, rfl, rfl, rfl⟩
